@@ -28,6 +28,22 @@ fn cat(parts: &[Vec<u8>]) -> Vec<u8> { parts.concat() }
 fn bytes(n: usize, pat: u8) -> Vec<u8> {
     (0..n).map(|i| match pat { 0 => 0, 1 => 0xff, _ => (i * 37 + 11) as u8 }).collect()
 }
+/// binary field values whose lengths cover every residue class of Base32
+/// (mod 5) and Base64 (mod 3), each with an all-ones last octet, a last octet
+/// with only the low bits set, and a mixed pattern
+fn residues() -> Vec<Vec<u8>> {
+    let mut v = vec![];
+    for n in [1usize, 2, 3, 4, 5, 6, 7, 8, 9, 10, 19, 20, 21, 24, 33, 34, 64] {
+        v.push(bytes(n, 1));
+        let mut m = bytes(n, 2);
+        m[n - 1] = 0x03 | ((n as u8) << 4);
+        v.push(m);
+        let mut k = bytes(n, 2);
+        k[n - 1] = 0xa5;
+        v.push(k);
+    }
+    v
+}
 /// RFC 4034 type bitmap
 fn bitmap(types: &[u16]) -> Vec<u8> {
     let mut v = vec![];
@@ -102,16 +118,19 @@ pub fn type_table() -> Vec<TypeCase> {
             cat(&[vec![255], cs(b"tag123"), vec![]]),
             cat(&[vec![1], cs(b"issuewild"), vec![0, 0x7f, 0xff]])] },
         TypeCase { rtype: 43, name: "DS", variants: bins.iter().map(|b| cat(&[u16be(60485), vec![5, 1], b.clone()])).chain(
-            vec![cat(&[u16be(0), vec![0, 0], bytes(1, 2)]), cat(&[u16be(65535), vec![255, 255], bytes(48, 1)])]).collect() },
+            vec![cat(&[u16be(0), vec![0, 0], bytes(1, 2)]), cat(&[u16be(65535), vec![255, 255], bytes(48, 1)])])
+            .chain(residues().into_iter().step_by(3).map(|d| cat(&[u16be(7), vec![8, 2], d]))).collect() },
         TypeCase { rtype: 59, name: "CDS", variants: vec![cat(&[u16be(1), vec![13, 2], bytes(32, 2)]), cat(&[u16be(0), vec![0, 0], vec![0]])] },
         TypeCase { rtype: 48, name: "DNSKEY", variants: bins.iter().map(|b| cat(&[u16be(257), vec![3, 13], b.clone()])).chain(
-            vec![cat(&[u16be(0), vec![0, 0], bytes(1, 0)]), cat(&[u16be(65535), vec![255, 255], bytes(64, 2)])]).collect() },
+            vec![cat(&[u16be(0), vec![0, 0], bytes(1, 0)]), cat(&[u16be(65535), vec![255, 255], bytes(64, 2)])])
+            .chain(residues().into_iter().map(|k| cat(&[u16be(256), vec![3, 15], k]))).collect() },
         TypeCase { rtype: 60, name: "CDNSKEY", variants: vec![cat(&[u16be(256), vec![3, 8], bytes(7, 2)]), cat(&[u16be(0), vec![3, 0], vec![0]])] },
         TypeCase { rtype: 46, name: "RRSIG", variants: vec![
             cat(&[u16be(1), vec![13, 2], u32be(3600), u32be(1700000000), u32be(1690000000), u16be(12345), plain.clone(), bytes(64, 2)]),
             cat(&[u16be(1234), vec![0, 0], u32be(0), u32be(0), u32be(0), u16be(0), root.clone(), bytes(1, 0)]),
             cat(&[u16be(65535), vec![255, 255], u32be(u32::MAX), u32be(u32::MAX), u32be(u32::MAX), u16be(65535), odd.clone(), bytes(5, 1)]),
-            cat(&[u16be(6), vec![8, 3], u32be(86400), u32be(2147483648), u32be(2147483647), u16be(1), long.clone(), bytes(4, 2)])] },
+            cat(&[u16be(6), vec![8, 3], u32be(86400), u32be(2147483648), u32be(2147483647), u16be(1), long.clone(), bytes(4, 2)])]
+            .into_iter().chain(residues().into_iter().take(12).map(|sg| cat(&[u16be(1), vec![13, 2], u32be(300), u32be(1700000000), u32be(1690000000), u16be(9), plain.clone(), sg]))).collect() },
         TypeCase { rtype: 47, name: "NSEC", variants: vec![
             cat(&[plain.clone(), bitmap(&[1, 2, 46, 47])]),
             cat(&[root.clone(), bitmap(&[1234, 65535, 256, 257])]),
@@ -122,7 +141,8 @@ pub fn type_table() -> Vec<TypeCase> {
             cat(&[vec![1, 1], u16be(65535), cs(&bytes(4, 1)), cs(&bytes(20, 0)), bitmap(&[])]),
             cat(&[vec![255, 255], u16be(12), cs(&bytes(1, 2)), cs(&bytes(1, 2)), bitmap(&[1234, 65535])]),
             cat(&[vec![1, 0], u16be(5), cs(&bytes(8, 2)), cs(&bytes(32, 2)), bitmap(&[6, 48])]),
-            cat(&[vec![1, 0], u16be(5), cs(&bytes(3, 2)), cs(&bytes(5, 1)), bitmap(&[1])])] },
+            cat(&[vec![1, 0], u16be(5), cs(&bytes(3, 2)), cs(&bytes(5, 1)), bitmap(&[1])])]
+            .into_iter().chain(residues().into_iter().map(|h| cat(&[vec![1, 0], u16be(1), cs(&h[..h.len().min(3)]), cs(&h), bitmap(&[1, 46])]))).collect() },
         TypeCase { rtype: 51, name: "NSEC3PARAM", variants: vec![
             cat(&[vec![1, 0], u16be(0), vec![0]]), cat(&[vec![1, 1], u16be(65535), cs(&bytes(8, 2))]),
             cat(&[vec![255, 255], u16be(1), cs(&bytes(1, 0))]), cat(&[vec![0, 0], u16be(10), cs(&bytes(255, 2))])] },
@@ -130,7 +150,7 @@ pub fn type_table() -> Vec<TypeCase> {
             vec![cat(&[vec![0, 0, 0], bytes(1, 1)]), cat(&[vec![255, 255, 255], bytes(6, 2)])]).collect() },
         TypeCase { rtype: 44, name: "SSHFP", variants: bins.iter().map(|b| cat(&[vec![4, 2], b.clone()])).chain(
             vec![cat(&[vec![0, 0], bytes(1, 0)]), cat(&[vec![255, 255], bytes(20, 1)])]).collect() },
-        TypeCase { rtype: 61, name: "OPENPGPKEY", variants: bins.clone() },
+        TypeCase { rtype: 61, name: "OPENPGPKEY", variants: bins.iter().cloned().chain(residues()).collect() },
         TypeCase { rtype: 63, name: "ZONEMD", variants: vec![
             cat(&[u32be(2018031500), vec![1, 1], bytes(48, 2)]), cat(&[u32be(0), vec![0, 0], bytes(12, 0)]),
             cat(&[u32be(u32::MAX), vec![255, 255], bytes(13, 1)]), cat(&[u32be(1), vec![1, 2], bytes(64, 2)])] },
